@@ -72,23 +72,46 @@ func (m material) fromSteps(i string, ss []step) {
 	}
 }
 
-func mintMaterial(w *world) material {
+// sessionsUsed lists the sessions a template refers to (only those are minted: signatures under
+// coverage instrumentation are the dominant cost of an execution).
+func sessionsUsed(tmpl []byte) (used [6]bool) {
+	for i := 0; i+2 < len(tmpl); i++ {
+		if tmpl[i] == '$' && strings.IndexByte("OSBKCHGP", tmpl[i+1]) >= 0 && tmpl[i+2] >= '0' && tmpl[i+2] <= '5' {
+			used[tmpl[i+2]-'0'] = true
+		}
+	}
+	return
+}
+
+func mintMaterial(w *world, used [6]bool) material {
 	m := material{}
 	a, b := hostNames[0], hostNames[1]
-	m.fromSteps("0", w.honest(0, w.srv[0], a, true, challengeText(100)))
-	m.fromSteps("1", w.honest(1, w.srv[0], a, false, challengeText(101)))
-	m.fromSteps("2", w.honest(2, w.srv[0], b, true, challengeText(102)))
-	m.fromSteps("3", w.honest(0, w.srv[1], a, false, challengeText(103)))
-	m.fromSteps("5", w.honest(3, w.srv[0], b, false, challengeText(105)))
-	// 4: client 2 starts a client-initiated flow under client 0's public key
-	victim, attacker := w.idents[0], w.idents[2]
-	ps := []param{{"challenge-server", challengeText(104)}, {"public-key", b64(mustPubBytes(victim.Pub))}}
-	r := w.sendParams(w.srv[0], a, ps, -1)
-	cc, _ := getParam(r.www, "challenge-client")
-	op, _ := getParam(r.www, "opaque")
-	m["O4"], m["C4"], m["H4"] = op, cc, challengeText(104)
-	m["S4"] = b64(mustSign(attacker.Priv, clientSigData(cc, w.srv[0].pub, a)))
-	m["K4"] = b64(mustPubBytes(attacker.Pub))
+	if used[0] {
+		m.fromSteps("0", w.honest(0, w.srv[0], a, true, challengeText(100)))
+	}
+	if used[1] {
+		m.fromSteps("1", w.honest(1, w.srv[0], a, false, challengeText(101)))
+	}
+	if used[2] {
+		m.fromSteps("2", w.honest(2, w.srv[0], b, true, challengeText(102)))
+	}
+	if used[3] {
+		m.fromSteps("3", w.honest(0, w.srv[1], a, false, challengeText(103)))
+	}
+	if used[5] {
+		m.fromSteps("5", w.honest(3, w.srv[0], b, false, challengeText(105)))
+	}
+	if used[4] {
+		// client 2 starts a client-initiated flow under client 0's public key
+		victim, attacker := w.idents[0], w.idents[2]
+		ps := []param{{"challenge-server", challengeText(104)}, {"public-key", b64(mustPubBytes(victim.Pub))}}
+		r := w.sendParams(w.srv[0], a, ps, -1)
+		cc, _ := getParam(r.www, "challenge-client")
+		op, _ := getParam(r.www, "opaque")
+		m["O4"], m["C4"], m["H4"] = op, cc, challengeText(104)
+		m["S4"] = b64(mustSign(attacker.Priv, clientSigData(cc, w.srv[0].pub, a)))
+		m["K4"] = b64(mustPubBytes(attacker.Pub))
+	}
 	return m
 }
 
@@ -176,7 +199,7 @@ type fuzzOutcome struct {
 func runFuzzCase(t *testing.T, tmpl []byte, ctl uint16) (out fuzzOutcome) {
 	synctest.Test(t, func(t *testing.T) {
 		w := newWorld(t, [2]srvConf{{"ed25519", 10 * time.Minute, false}, {"ed25519", time.Minute, false}}, fuzzIdentities())
-		m := mintMaterial(w)
+		m := mintMaterial(w, sessionsUsed(tmpl))
 		out.hdr = expand(tmpl, m)
 		target := w.srv[ctl&1]
 		host := [...]string{hostNames[0], hostNames[1], invalidHost, strings.ToUpper(hostNames[0])}[(ctl>>1)&3]
